@@ -74,6 +74,14 @@ def main():
         meta["detected_by"] = [p for p, d in det.items() if d["detected"]]
         dst = V / "seeded" / name
         dst.mkdir(parents=True, exist_ok=True)
+        old = dst / "meta.json"
+        if old.exists():
+            prev = json.loads(old.read_text())
+            hist = prev.pop("previous_runs", [])
+            hist.append(dict(when=prev.get("when"), verif_head=prev.get("verif_head"), repo_head=prev.get("repo_head"),
+                             detected_by=prev.get("detected_by"), checks={k: dict(rc=v["rc"], keys=v["keys"][:3]) for k, v in prev.get("checks", {}).items()}))
+            meta["previous_runs"] = hist
+        meta["verif_head"] = sh("git -C /verif rev-parse --short HEAD")[1].strip()
         for f in ("patch.diff", demo, "NOTES.md"):
             if (src / f).exists():
                 shutil.copy(src / f, dst / f)
